@@ -16,6 +16,9 @@
 #include <fcntl.h>
 #include <unistd.h>
 #include <errno.h>
+#include <sys/ioctl.h>
+#include <pthread.h>
+#include <vector>
 using namespace asl;
 using namespace vh;
 
@@ -42,7 +45,12 @@ struct St {
 	int feedfd;
 	Endian re;
 	size_t pos;
-	St() : kind(K_NONE), reading(false), sb(0), wf(0), rawfd(-1), ws(0), peerfd(-1), rdata(0), sbr(0), rf(0), rs(0), feedfd(-1), re(ENDIAN_LITTLE), pos(0) {}
+	// `readerf`: the reader socket is fed in pieces cut at these offsets of the written stream
+	bool frag;
+	std::vector<size_t> cuts;
+	size_t fed;
+	int rfd;
+	St() : kind(K_NONE), reading(false), sb(0), wf(0), rawfd(-1), ws(0), peerfd(-1), rdata(0), sbr(0), rf(0), rs(0), feedfd(-1), re(ENDIAN_LITTLE), pos(0), frag(false), fed(0), rfd(-1) {}
 };
 
 static St st;
@@ -434,6 +442,58 @@ template <class S> static std::string writeOn(S& s, const Toks& t)
 	return "bad-op";
 }
 
+// ---- fragmented delivery (`readerf`): the peer of the reader socket is a thread that writes the observed bytes in pieces.
+// A read of `need` bytes at position pos gets the pieces up to the first cut at or after pos + need; every piece after the
+// first goes out only when the reader has taken everything delivered before (FIONREAD on its descriptor is 0), so a value
+// that contains a cut reaches the reader in two or more recv() calls whatever the scheduling.
+static size_t nextCut(size_t from)
+{
+	size_t c = st.written.size();
+	for (size_t i = 0; i < st.cuts.size(); i++) if (st.cuts[i] > from && st.cuts[i] < c) c = st.cuts[i];
+	return c;
+}
+
+static bool feedPiece()
+{
+	size_t c = nextCut(st.fed);
+	while (st.fed < c) {
+		ssize_t k = send(st.feedfd, st.written.data() + st.fed, c - st.fed, MSG_NOSIGNAL);
+		if (k < 0 && errno == EINTR) continue;
+		if (k <= 0) return false;
+		st.fed += k;
+	}
+	if (st.fed == st.written.size()) shutdown(st.feedfd, SHUT_WR);
+	return true;
+}
+
+struct Feeder {
+	pthread_t th;
+	bool started;
+	size_t end;
+	static void* run(void* p) { ((Feeder*)p)->loop(); return 0; }
+	void loop()
+	{
+		while (st.fed < end) {
+			for (int i = 0; i < 40000; i++) { // at most 2 s: a reader that does not take its bytes is not waited for
+				int q = 0;
+				if (ioctl(st.rfd, FIONREAD, &q) != 0 || q == 0) break;
+				usleep(50);
+			}
+			if (!feedPiece()) break;
+		}
+	}
+	explicit Feeder(size_t need) : started(false), end(0)
+	{
+		if (st.kind != K_SOCK || !st.frag) return;
+		end = st.pos + need;
+		if (end > st.written.size()) end = st.written.size();
+		if (st.fed >= end) return;
+		started = pthread_create(&th, 0, run, this) == 0;
+		if (!started) loop();
+	}
+	~Feeder() { if (started) pthread_join(th, 0); }
+};
+
 static int be32(const char* p) { unsigned u = ((unsigned)(byte)p[0] << 24) | ((unsigned)(byte)p[1] << 16) | ((unsigned)(byte)p[2] << 8) | (unsigned)(byte)p[3]; int x; memcpy(&x, &u, 4); return x; }
 static int le32(const char* p) { unsigned u = ((unsigned)(byte)p[3] << 24) | ((unsigned)(byte)p[2] << 16) | ((unsigned)(byte)p[1] << 8) | (unsigned)(byte)p[0]; int x; memcpy(&x, &u, 4); return x; }
 
@@ -481,7 +541,12 @@ static std::string step1(const Toks& t)
 	}
 	if (st.kind == K_NONE) return "no-stream";
 
-	if (op == "reader" && t.size() == 2) {
+	if ((op == "reader" && t.size() == 2) || (op == "readerf" && t.size() >= 2)) {
+		// `readerf <e> <cut>...`: as `reader`; a Socket reader gets the bytes in pieces cut at offsets cut mod (n+1)
+		for (size_t j = 2; j < t.size(); j++) {
+			if (t[j].empty() || t[j].size() > 9) return "bad-op";
+			for (size_t i = 0; i < t[j].size(); i++) if (t[j][i] < '0' || t[j][i] > '9') return "bad-op";
+		}
 		if (st.reading) return "closed";
 		Endian e = ENDIAN_LITTLE; bool d;
 		if (!parseEndian(t[1], e, d)) return "bad-op";
@@ -503,6 +568,14 @@ static std::string step1(const Toks& t)
 			int fds[2];
 			if (socketpair(AF_UNIX, SOCK_STREAM, 0, fds) != 0) return "err socketpair";
 			st.feedfd = fds[0];
+			st.rfd = fds[1];
+			if (op == "readerf") {
+				st.frag = true;
+				st.fed = 0;
+				for (size_t j = 2; j < t.size(); j++) st.cuts.push_back((size_t)(num(t[j]) % (long long)(n + 1)));
+				if (n == 0) shutdown(st.feedfd, SHUT_WR);
+			}
+			else {
 			size_t sent = 0;
 			while (sent < n) {
 				ssize_t k = send(st.feedfd, st.written.data() + sent, n - sent, MSG_DONTWAIT | MSG_NOSIGNAL);
@@ -510,6 +583,7 @@ static std::string step1(const Toks& t)
 				sent += k;
 			}
 			shutdown(st.feedfd, SHUT_WR); // everything is in the socket buffer: a read past the end returns instead of blocking
+			}
 			st.rs = new Socket(fds[1]);
 			if (!d) st.rs->setEndian(e);
 			st.re = d ? ENDIAN_NATIVE : e;
@@ -603,6 +677,7 @@ static std::string step1(const Toks& t)
 		// what the object reports about itself: a healthy stream has no error and (reader socket) exactly the unread bytes pending
 		if (st.kind != K_SOCK) return "na";
 		if (!st.reading) return "ok error=" + str(st.ws->error());
+		if (st.frag) while (st.fed < st.written.size()) if (!feedPiece()) return "err feed-short"; // available() is asked with everything delivered
 		return "ok error=" + str(st.rs->error()) + " available=" + str(st.rs->available());
 	}
 	bool isRead = op == "rd" || op == "rsame" || op == "ra" || op == "rendian" || op == "r" || op == "rb" || op == "skip" || op == "rs";
@@ -626,6 +701,7 @@ static std::string step1(const Toks& t)
 		if (!w) return "bad-op";
 		if (remaining < (size_t)w) return "eof";
 		if (st.kind != K_SB && t[1] == "b" && (byte)st.written[st.pos] > 1) return "na-bool";
+		Feeder fd_((size_t)w);
 		std::string r = st.kind == K_SB ? rScalar(*st.sbr, t[1]) : st.kind == K_FILE ? rScalar(*st.rf, t[1]) : rScalar(*st.rs, t[1]);
 		st.pos += w;
 		if (st.kind == K_SB && (size_t)st.sbr->length() != st.written.size() - st.pos) return "err reader-position";
@@ -639,6 +715,7 @@ static std::string step1(const Toks& t)
 		if (st.kind == K_SB) return "na";
 		if (remaining < (size_t)n * w) return "eof";
 		if (t[2] == "b") for (int i = 0; i < n; i++) if ((byte)st.written[st.pos + i] > 1) return "na-bool";
+		Feeder fd_((size_t)n * w);
 		std::string r = st.kind == K_FILE ? rDerived(*st.rf, t[1], t[2], n) : rDerived(*st.rs, t[1], t[2], n);
 		st.pos += (size_t)n * w;
 		return r;
@@ -651,6 +728,7 @@ static std::string step1(const Toks& t)
 		if (st.kind == K_SB) return "na";
 		if (remaining < (size_t)n * w) return "eof";
 		if (t[1] == "b") for (int i = 0; i < n; i++) if ((byte)st.written[st.pos + i] > 1) return "na-bool";
+		Feeder fd_((size_t)n * w);
 		std::string r = st.kind == K_FILE ? rArray(*st.rf, t[1], n) : rArray(*st.rs, t[1], n);
 		st.pos += (size_t)n * w;
 		return r;
@@ -660,6 +738,7 @@ static std::string step1(const Toks& t)
 		if (t[1].empty() || t[1].size() > 18) return "bad-op";
 		int n = (int)((U64)num(t[1]) % (U64)(remaining + 1));
 		std::string r = "ok";
+		Feeder fd_((size_t)n);
 		if (op == "rb") {
 			if (st.kind == K_SB) { ByteArray a = st.sbr->read(n); r = hex(a.data(), a.length()); }
 			else if (st.kind == K_FILE) { ByteArray a(n); int m = st.rf->read(a.data(), n); r = hex(a.data(), m < 0 ? 0 : m); }
@@ -685,6 +764,7 @@ static std::string step1(const Toks& t)
 		if (st.kind == K_SOCK && n >= 0 && (size_t)n > remaining - 4) return "na";
 		size_t take = n < 0 ? 0 : ((size_t)n > remaining - 4 ? remaining - 4 : (size_t)n);
 		String x;
+		Feeder fd_(4 + take);
 		if (st.kind == K_FILE) *st.rf >> x;
 		else *st.rs >> x;
 		st.pos += 4 + take;
